@@ -70,8 +70,8 @@ theorem lookupForVptr_of_lookup (cfg : Cfg) (p : Pub) (id : Nat) (sl : VSlot) (h
     simp only [hm, Bool.false_eq_true, if_false]
     exact h
 
-/-- the arguments passed by reference, and the `virtual_ptr`s made on the spot from a reference (no
-    class being the static one), get the v-table pointers of their registered classes -/
+/-- the arguments passed by reference, and the `virtual_ptr`s made on the spot from a reference (whether
+    or not its class is the pointer's static class), get the v-table pointers of their registered classes -/
 theorem lookups_ok (s' : PState) (inst : Installed) (c : Compiled) (hc : s'.compiled = some c)
     (ids : List (List Nat))
     (hlook : ∀ (ci : Nat) (l : List Nat) (id : Nat), ids[ci]? = some l → id ∈ l → lookupVptr s'.cfg s'.pub id = .ok (.cur ci))
@@ -164,8 +164,8 @@ theorem lookups_ok (s' : PState) (inst : Installed) (c : Compiled) (hc : s'.comp
 
 /-- **C01 + C02 at the outermost level of the model.** After an `update` that succeeded, on a registry
     without inheritance cycles whose ids are machine words: a call of a registered method, with
-    arguments passed by reference or as `virtual_ptr`s made from a reference (no class being the
-    static one) whose dynamic types are registered classes acceptable for the parameters, does exactly what the specification prescribes for the keys of those classes —
+    arguments passed by reference or as `virtual_ptr`s made from a reference (whether or not the class is the
+    pointer's static class) whose dynamic types are registered classes acceptable for the parameters, does exactly what the specification prescribes for the keys of those classes —
     it runs the definition more specific than every other applicable one; or, when there is none or
     several incomparable ones, runs nothing and raises a resolution error whose status tells the two
     cases apart, whose arity is the number of virtual parameters and whose type ids are the dynamic
